@@ -135,6 +135,40 @@ def crash(r, thorough):
         start, prop = offsets(r, n, 600)
         out.append(cluster("crash_any", n, inst, "attester", r.choice(["eager", "inc"]), r, start=start, prop=prop,
                            lat=lat_matrix(r, n, 10, 290), crashes=crashes))
+    # (c) the leader of round 1 crashes INSIDE its PRE-PREPARE broadcast after at least a quorum of the others got it (possible
+    #     for n - 1 > quorum, i.e. n = 6, 7): the members that missed the PRE-PREPARE reach the PREPARE quorum without it and
+    #     must COMMIT (and decide) a value they only know from the PREPAREs / COMMITs of the others.  All duty types: the
+    #     component carries the value next to every message, whatever the duty's payload is.
+    for n in (6, 7):
+        q = (2 * n + 2) // 3
+        for k in range(4 if thorough else 2):
+            inst = r.randrange(n)
+            ldr = (inst + 1) % n
+            others = [p for p in range(n) if p != ldr]
+            to = r.sample(others, r.randint(q, n - 2))
+            dtype = ["proposer", "attester", "aggregator", "proposer"][k % 4]
+            start, prop = offsets(r, n, 0)
+            out.append(cluster("crash_pp", n, inst, dtype, "eager", r, start=start, prop=prop, lat=lat_matrix(r, n, 10, 120),
+                               crashes=[{"p": ldr, "after": 0, "to": to}]))
+    return out
+
+
+def overtake(r, thorough):
+    """No fault at all, latencies below a third of the round: the leader's PRE-PREPARE is slow towards some members while the
+    other links are fast, so a quorum of PREPAREs (and even COMMITs) OVERTAKES the PRE-PREPARE there: those members act on
+    the PREPARE quorum first and have to COMMIT a value they have not been proposed yet."""
+    out = []
+    for k in range(12 if thorough else 4):
+        n = [4, 6, 7, 4][k % 4]
+        inst = r.randrange(n)
+        ldr = (inst + 1) % n
+        others = [p for p in range(n) if p != ldr]
+        q = (2 * n + 2) // 3
+        slow = r.sample(others, r.randint(1, max(1, n - q)))     # a quorum (leader included) still gets it at once
+        lat = [[0 if i == j else ((270 + 2 * j + (k % 7)) if (i == ldr and j in slow) else 6 + (3 * i + j) % 11) for j in range(n)] for i in range(n)]
+        dtype = ["proposer", "attester", "proposer", "aggregator"][(k // 2) % 4]
+        start, prop = offsets(r, n, 0)
+        out.append(cluster("overtake", n, inst, dtype, r.choice(["eager", "inc"]), r, start=start, prop=prop, lat=lat))
     return out
 
 
@@ -248,7 +282,7 @@ def probe_inc():
 def schedules(tier, seed):
     thorough = tier == "thorough"
     r = vlib.rng(seed, "conscluster")
-    return honest(r, thorough) + crash(r, thorough) + loss(r, thorough) + late(r, thorough) + byzantine(r, thorough)
+    return honest(r, thorough) + crash(r, thorough) + overtake(r, thorough) + loss(r, thorough) + late(r, thorough) + byzantine(r, thorough)
 
 
 # ----------------------------------------------------------------------------------------------------------------------
